@@ -183,7 +183,8 @@ def model_sig(cfg_opts, arg_opts, labels):
 
 def check_storage(case, scratch):
     """one option combination given one way; returns (fails, model diffs, observed)"""
-    roots = {lab: os.path.join(scratch, lab) for lab in ("home", "A", "B", "C")}
+    # directory names with characters that mean something to HTML / template engines (not to YAML or JSON strings)
+    roots = {lab: os.path.join(scratch, {"A": "A&B <x>", "B": "B;{y}&amp;"}.get(lab, lab)) for lab in ("home", "A", "B", "C")}
     roots["home"] = os.path.join(scratch, "homedir", ".memento", "data")
     os.environ["HOME"] = os.path.join(scratch, "homedir")
     name = "c18_%d" % _n[0]
@@ -264,7 +265,17 @@ def check_order(rng, scratch):
             clusters[nm] = FunctionCluster(name=nm, storage=FilesystemStorageBackend(path=roots[lab]))
             rs.append("%d:%d" % (names.index(nm) + 1, cid))
             ident[cid] = lab
-        repos.append(ConfigurationRepository(name="r%d" % ri, clusters=clusters))
+        if rng.random() < 0.4:
+            # the repository also has a configuration with clusters of its own: the explicit `clusters` argument replaces them
+            decoys = {}
+            for nm in rng.sample(names, rng.randint(1, 3)):
+                cid += 1
+                lab = "D%d" % cid
+                roots[lab] = os.path.join(scratch, lab)
+                decoys[nm] = {"name": nm, "storage": {"type": "filesystem", "path": roots[lab]}}
+            repos.append(ConfigurationRepository(config={"name": "zz", "clusters": decoys}, name="r%d" % ri, clusters=clusters))
+        else:
+            repos.append(ConfigurationRepository(name="r%d" % ri, clusters=clusters))
         spec.append(",".join(rs) or "-")
     env = Environment(name="e", base_dir=scratch, repos=repos)
     how = rng.choice(["as-built", "prepend", "append", "dump"])
